@@ -17,9 +17,58 @@ PI = F.sym("pi")
 O_, I_ = F.const(0), F.const(1)
 
 
+def _weight(v, limit):
+    """size of a value as a printed tree (monomials; the arguments of an atom count at every occurrence), counted up to `limit`"""
+    tot = 0
+    stack = [v]
+    while stack and tot <= limit:
+        x = stack.pop()
+        if isinstance(x, tuple):
+            stack.extend(x)
+        elif G.is_rat(x):
+            for p_ in (x.n, x.d):
+                tot += len(p_.t)
+                for m in p_.t:
+                    for a, _ in m:
+                        d = F.atom_desc(a)
+                        if d[0] in ("exp", "sin", "cos", "sqrt"):
+                            stack.append(F.Rat(F._poly_from_key(d[1])))
+                        elif d[0] == "fn":
+                            stack.extend(G._arg(k) for k in d[2] if not isinstance(k, str))
+                    if len(stack) > limit:
+                        return limit + 1
+    return tot
+
+
 def _show(v, n=300):
-    s = repr(N.to_nested(v))
+    """short text of a value for a report (a formula that is too large to be read is summarised, not printed)"""
+    v = N.to_nested(v)
+    if isinstance(v, tuple) and v and _weight(v, 400) > 400:
+        parts, used = [], 0
+        for x in v:
+            t = _show(x, max(40, n // max(1, len(v))))
+            parts.append(t)
+            used += len(t)
+            if used > n:
+                parts.append("...")
+                break
+        return "(" + ", ".join(parts) + ")"
+    if _weight(v, 400) > 400:
+        return "<formula with more than 400 terms>"
+    s = repr(v)
     return s if len(s) <= n else s[:n] + "..."
+
+
+_UNDERSTOOD = {"atan2", "abs"}
+
+
+def _opaque_in(v):
+    """name of an application inside a value whose meaning the evaluation does not know (an unmodelled call, an attribute or element of an
+    opaque object ...), else None.  Such a value can be neither confirmed nor refuted: the obligation is an ANALYSIS-ERROR, never a violation."""
+    for _, d in G.atoms_of(N.to_nested(v)):
+        if d[0] == "fn" and d[1] not in _UNDERSTOOD:
+            return d[1]
+    return None
 
 
 def _euler(tag=""):
@@ -126,7 +175,7 @@ def r1_inverse_pair(ctx):
         if len(locs) > 1 and all(G.same(x, locs[0]) for x in locs[1:]):
             locs = locs[:1]
         loc = locs[0] if len(locs) == 1 else None
-        if not (isinstance(loc, tuple) and len(loc) == 3 and G.is_vector(loc) and not G.any_unknown(loc)):
+        if not (isinstance(loc, tuple) and len(loc) == 3 and G.is_vector(loc) and not G.any_unknown(loc)) or _opaque_in(loc):
             ctx.error(f"_get_loc_a_basic ({label}): basic location", fwd, _show(locs))
             continue
         vec = G.matmul(G.transpose(T), tuple(l - o for l, o in zip(loc, org)))
@@ -159,7 +208,7 @@ def r1_inverse_pair(ctx):
             res = N.to_nested(r.ret)
             branch = _branch_tag(r, sx, cx) if ctype == 3 else ""
             tag = f"getcoordinates o _get_loc_a_basic ({label}{branch})"
-            if G.any_unknown(res) or res is None:
+            if G.any_unknown(res) or res is None or _opaque_in(res):
                 ctx.error(f"{tag}: result", inv, _show(res))
                 continue
             if not (isinstance(res, tuple) and len(res) == 3 and G.is_vector(res)):
@@ -196,7 +245,7 @@ def _r1_lookup(ctx, acc, inv, loc, a, hook):
         return
     for r in _returns(ctx, runs, "getcoordinates (grid id)", inv):
         res = N.to_nested(r.ret)
-        if G.any_unknown(res) or res is None:
+        if G.any_unknown(res) or res is None or _opaque_in(res):
             ctx.error("getcoordinates (grid id): result", inv, _show(res))
             continue
         ok = G.same(res, a)
@@ -209,7 +258,7 @@ def _r1_lookup(ctx, acc, inv, loc, a, hook):
         return
     for r in _returns(ctx, runs, "getcoordinates (basic system)", inv):
         res = N.to_nested(r.ret)
-        if G.any_unknown(res) or res is None:
+        if G.any_unknown(res) or res is None or _opaque_in(res):
             ctx.error("getcoordinates (basic system): result", inv, _show(res))
             continue
         ok = G.same(res, loc)
@@ -351,8 +400,12 @@ def r3_rbgeom(ctx):
         out = []
         for run in runs:
             v = N.to_nested(run.ret)
-            if not (isinstance(run.ret, N.Arr) and run.ret.shape == (6 * ng, 6)) or G.any_unknown(v):
-                ctx.error(f"rbgeom ({what}): the result is a (6 n, 6) array", fn, _show(v))
+            if not isinstance(run.ret, N.Arr) or G.any_unknown(v) or _opaque_in(v):
+                ctx.error(f"rbgeom ({what}): the result is an array of understood values", fn, {"result": _show(v), "not understood": _opaque_in(v)})
+                dead.append(what)
+                return None
+            if run.ret.shape != (6 * ng, 6):
+                ctx.fail(f"rbgeom ({what}): the result has six rows per grid and six columns", fn, {"shape": list(run.ret.shape), "grids": ng})
                 dead.append(what)
                 return None
             out.append(v)
@@ -430,9 +483,14 @@ def r3_rbgeom(ctx):
         ok, detail = True, None
         for run in runs:
             v = N.to_nested(run.ret)
+            if G.any_unknown(v) or v is None or _opaque_in(v):
+                ctx.error("rbmove: result", mv, _show(v, 300))
+                ok = None
+                break
             if not G.same(v, want):
                 ok, detail = False, _show(v, 600)
-        ctx.check(ok, "rbmove: modes about a new reference = modes @ rbgeom(old reference about new reference)", mv, detail)
+        if ok is not None:
+            ctx.check(ok, "rbmove: modes about a new reference = modes @ rbgeom(old reference about new reference)", mv, detail)
 
 
 # ------------------------------------------------------------------------------------------------ R2: rbgeom_uset local frames
@@ -450,6 +508,7 @@ class _Scene:
     def __init__(self, spec, numeric=None):
         """spec: [("S", id, in_qset)] | [("G", id, type, in_qset)];  numeric: None or {grid number: local position (3 Fractions)}"""
         self.spec = spec
+        self.symbolic = numeric is None
         self.ids, self.dofs, rows = [], [], []
         self.grids = []           # per grid that is not in the q-set: dict(first row in the full table, type, X, T, l, frame parameters)
         self.qids = set()
@@ -459,7 +518,9 @@ class _Scene:
         for ent in spec:
             if ent[0] == "S":
                 self.other_rows.append(len(rows))
-                rows.append((F.sym(f"ns{len(rows)}"), F.sym(f"sp{len(rows)}x"), F.sym(f"sp{len(rows)}y"), F.sym(f"sp{len(rows)}z")))
+                cells = (F.sym(f"ns{len(rows)}"), F.sym(f"sp{len(rows)}x"), F.sym(f"sp{len(rows)}y"), F.sym(f"sp{len(rows)}z"))
+                self.generic.update({G.atom_id(c): Fraction(11 * k - 4, 7) + len(rows) for k, c in enumerate(cells)})
+                rows.append(cells)
                 self.ids.append(F.const(ent[1]))
                 self.dofs.append(O_)
                 if ent[2]:
@@ -513,9 +574,13 @@ class _Scene:
             else:
                 origin = tuple(F.sym(f"O{tag}{k}") for k in "xyz")
             info["T"], info["l"] = T, l
-            block = [X, (F.sym("cid" + tag), F.const(ctype), O_), origin] + list(T)
+            cid = F.sym("cid" + tag) if numeric is None else F.const(100 + n)
+            self.generic[G.atom_id(F.sym("cid" + tag))] = Fraction(100 + n)
+            block = [X, (cid, F.const(ctype), O_), origin] + list(T)
             for d, rw in enumerate(block):
-                rows.append((F.sym(f"ns{len(rows)}"),) + tuple(rw))
+                ns = F.sym(f"ns{len(rows)}")
+                self.generic[G.atom_id(ns)] = Fraction(2097154 + len(rows))
+                rows.append((ns if numeric is None else F.const(2097154 + len(rows)),) + tuple(rw))
                 self.ids.append(F.const(gid))
                 self.dofs.append(F.const(d + 1))
             if inq:
@@ -582,7 +647,12 @@ def _run_scene(ctx, fn, scene, ref, truth=None, extra_hook=None):
             continue
         if not (isinstance(r.ret, N.Arr) and r.ret.shape == (scene.nrows, 6)):
             raise Unsupported(f"rbgeom_uset does not return an array with one row per table row and six columns ({_show(r.ret, 120)})")
-        out.append((r.ret.nested(), r))
+        res = r.ret.nested()
+        if G.any_unknown(res):
+            raise Unsupported("rbgeom_uset: the result has entries the evaluation could not compute")
+        if scene.symbolic and _opaque_in(res):
+            raise Unsupported(f"rbgeom_uset: the result contains an application the evaluation does not interpret ({_opaque_in(res)})")
+        out.append((res, r))
     if not out:
         raise Unsupported("rbgeom_uset: no regime returns")
     return out
